@@ -267,7 +267,7 @@ fn recs_spec_arg(s: &str) -> SpecArg<Vec<RecS>> {
 
 // ------------------------------------------------------------ rayon pools
 
-const POOL_SIZES: [usize; 6] = [1, 2, 3, 4, 8, 16];
+const POOL_SIZES: [usize; 9] = [1, 2, 3, 4, 5, 7, 8, 12, 16];
 fn pools() -> &'static Vec<rayon::ThreadPool> {
     static P: OnceLock<Vec<rayon::ThreadPool>> = OnceLock::new();
     P.get_or_init(|| POOL_SIZES.iter().map(|n| rayon::ThreadPoolBuilder::new().num_threads(*n).build().unwrap()).collect())
@@ -511,7 +511,8 @@ fn gen_file(rng: &mut Rng, profile: u64) -> FileS {
     let tables: Vec<TableS> = (0..nt).map(|_| {
         let v6 = rng.chance(2, 5);
         let (plen, pbytes) = gen_prefix(rng, v6);
-        let ne = if profile == 6 { rng.usize(maxe / 2, maxe) } else { match rng.below(5) { 0 => 1, 1 => maxe, _ => rng.usize(1, maxe) } };
+        // (a table without entries - Entry Count 0 - is well-formed, RFC 6396 4.3.2: about one table in nine)
+        let ne = if profile == 6 { rng.usize(maxe / 2, maxe) } else if rng.chance(1, 9) { 0 } else { match rng.below(5) { 0 => 1, 1 => maxe, _ => rng.usize(1, maxe) } };
         let entries = (0..ne).map(|_| EntryS {
             idx: match rng.below(6) { 0 => 0, 1 => (np - 1) as u16, _ => rng.below(np as u64) as u16 },
             orig: rng.u32(), attrs: gen_attrs(rng, maxa) }).collect();
@@ -583,7 +584,8 @@ fn mutate(rng: &mut Rng, b: &[u8]) -> Vec<u8> {
 /// still agree with the code, panics included)
 fn irregular(rng: &mut Rng) -> Vec<String> {
     let mut v = Vec::new();
-    let f = gen_file(rng, 0);
+    let mut f = gen_file(rng, 0);
+    if f.tables[0].entries.is_empty() { f.tables[0].entries.push(EntryS { idx: 0, orig: 7, attrs: vec![0x40, 1, 1, 0] }); }
     let pit = ref_record(1, 13, 1, None, &ref_peer_table(&f));
     let t0 = ref_table(&f.tables[0]);
     let td = |v: &mut Vec<String>, b: &[u8]| {
@@ -676,6 +678,16 @@ fn boundary_files() -> Vec<FileS> {
             t(true, 64, vec![0x20, 1, 0xd, 0xb8, 0, 0, 0, 1], vec![e(3, vec![0x40, 1, 1, 0])]),
         ]),
     ];
+    // tables without entries (Entry Count 0): the only table, all tables, first, last, consecutive, between
+    let z4 = || t(false, 24, vec![192, 0, 2], vec![]);
+    let z6 = || t(true, 0, vec![], vec![]);
+    let n4 = || t(false, 8, vec![10], vec![e(0, vec![1, 2, 3]), e(1, vec![])]);
+    let n6 = || t(true, 16, vec![0x20, 1], vec![e(1, vec![4])]);
+    v.push(f(vec![p4.clone()], vec![z4()]));
+    v.push(f(vec![], vec![z6(), z4(), z6()]));
+    v.push(f(vec![p4.clone(), p6.clone()], vec![z4(), n4()]));
+    v.push(f(vec![p4.clone(), p6.clone()], vec![n4(), z6()]));
+    v.push(f(vec![p4.clone(), p6.clone()], vec![z6(), z4(), n6(), z4(), z4(), z6(), n4(), n6(), z6(), z6()]));
     // 40 peers of all four kinds, one table whose 20 entries walk the index from the top
     let peers: Vec<PeerS> = (0..40u32).map(|i| {
         let v6 = i % 2 == 1; let as4 = (i / 2) % 2 == 1;
@@ -684,6 +696,13 @@ fn boundary_files() -> Vec<FileS> {
     let tables: Vec<TableS> = (0..30u32).map(|k| TableS { ts: k, seq: u32::MAX - k, v6: k % 3 == 0, plen: 16, pbytes: vec![k as u8, 1],
         entries: (0..if k == 0 { 20 } else { 1 + k as u16 % 3 }).map(|j| EntryS { idx: 39 - (j + k as u16) % 40, orig: u32::MAX, attrs: vec![j as u8; (j % 3) as usize] }).collect() }).collect();
     v.push(FileS { ts: u32::MAX, collector: u32::MAX, view: (0..40).collect(), peers, tables });
+    // 300 peers: Peer Count and peer indices with a non-zero high octet (256, 257, 299), view name of 300 octets
+    let peers: Vec<PeerS> = (0..300u32).map(|i| PeerS { id: 0x0a000000 + i, addr: vec![10, 0, (i >> 8) as u8, i as u8], asn: 64000 + i, as4: i % 2 == 0 }).collect();
+    let tables = vec![
+        t(false, 16, vec![10, 1], vec![e(256, vec![1]), e(0, vec![2]), e(299, vec![3]), e(255, vec![]), e(257, vec![4, 5])]),
+        t(true, 8, vec![0x20], vec![e(298, vec![])]),
+    ];
+    v.push(FileS { ts: 1, collector: 2, view: vec![0x61; 300], peers, tables });
     v
 }
 
@@ -890,7 +909,9 @@ impl Prop for C16 {
                 Err(format!("messages() on a file with interleaved skippable records: got `{}` expected `{}`",
                     &reply[..reply.len().min(300)], &expected[..expected.len().min(300)])) };
         }
-        if matches!(w[0], "msgs" | "trunc") && reply.starts_with("ok") && !reply.contains(" then=nn") {
+        // "it stops": demanded of well-formed files and their truncations (lines that carry their content
+        // description); on irregular / mutated input (spec `-`) the property is silent
+        if matches!(w[0], "msgs" | "trunc") && w.last() != Some(&"-") && reply.starts_with("ok") && !reply.contains(" then=nn") {
             return Err("messages(): the iterator yields again after it returned None (it is not fused)".into());
         }
         if reply.contains("BGPMISMATCH") { return Err("bgp_msg() returns other bytes than the record holds".into()); }
@@ -907,8 +928,8 @@ impl Prop for C16 {
             "rib" | "tables" | "mt" => {
                 let f = parse_file(spec).ok_or("unparsable spec")?;
                 if ref_file(&f) != bytes { return Ok(()); }   // not the encoding of its spec: no claim
-                if f.tables.iter().any(|t| t.entries.is_empty() || t.entries.iter().any(|e| e.idx as usize >= f.peers.len())) {
-                    return Ok(());                          // outside the well-formedness envelope
+                if f.tables.iter().any(|t| t.entries.iter().any(|e| e.idx as usize >= f.peers.len())) {
+                    return Ok(());                          // a peer index outside the file's index table: not well-formed
                 }
                 expect_file(op, &f)
             }
@@ -919,6 +940,18 @@ impl Prop for C16 {
             }
         };
         if reply == expected { return Ok(()); }
+        if op == "tables" {
+            // the property speaks about the ENTRIES the per-table iterators yield: whether a table without
+            // entries appears as an (empty) item of tables() is left open
+            let strip = |s: &str| -> String {
+                let w: Vec<&str> = s.split(' ').collect();
+                if w.len() < 2 || w[0] != "ok" { return s.to_string(); }
+                let items: Vec<&str> = w[2..].iter().copied().filter(|t| !(t.starts_with("T,") && t.ends_with(",0"))).collect();
+                let n = items.iter().filter(|t| !t.starts_with("enc=")).count();
+                format!("ok {} {}", n, items.join(" "))
+            };
+            if strip(reply) == strip(&expected) { return Ok(()); }
+        }
         let what = match op {
             "rib" => "rib_entries() does not yield the file's entries",
             "tables" => "tables() + SingleEntryIterator do not yield the file's tables/entries",
